@@ -203,9 +203,19 @@ class TileManager(object):
         if (self.rescale_tiles == 0 and cache_only):
             return tiles
 
+        late_tiles = []
         for tile in tiles:
             if self._is_tile_missing(tile, cache_only, dimensions=dimensions):
                 uncached_tiles.append(tile)
+            elif tile.is_missing():
+                # stored by another request after our batch load: cached, but not loaded yet
+                late_tiles.append(tile)
+
+        if late_tiles:
+            self.cache.load_tiles(late_tiles, with_metadata, dimensions=dimensions)
+            for t in late_tiles:
+                if t.source is not None and getattr(t.source, 'image_opts', False) is None:
+                    t.source.image_opts = self.image_opts
 
         if uncached_tiles:
             creator = self.creator(dimensions=dimensions)
